@@ -96,8 +96,8 @@ Proof. exact run_ds_exact. Qed.
 Print Assumptions datasets_exact.
 
 (* ---- datasets_answered_partial. Full statement: every dataset request under the management prefix is answered with the
-   dataset. Proved only under the visible hypothesis that every dataset fits one segment ([ds_fits] = "encoded length <=
-   8000", external codec): makeStatusDataset gives up on larger datasets and nothing is sent. The pinned code therefore
+   dataset. Proved only under the visible hypothesis that every dataset fits one segment ([ds_fits] = "fits one Data packet",
+   external codec): a larger dataset cannot be sent as the single segment makeStatusDataset builds, and nothing arrives. The pinned code therefore
    violates the full statement - answered_unless_large_refuted, known finding (about 180 routes are enough). ---- *)
 Theorem datasets_answered_partial : forall rib_to_fib face_cleanup allow ds_fits st vs c st' vs' r,
   (forall d, ds_fits d = true) ->
